@@ -34,6 +34,10 @@ func main() {
 	thorough = *tier == "thorough"
 	boostR = newR(*seed ^ 0x5eed5eed)
 	out := newOut(*outp)
+	switch prop {
+	case "C06", "C08", "C12", "C13":
+		out.emit(deepScaleCase(prop))
+	}
 	g(newR(*seed), *n, *tier, out)
 	// a second stream for the properties whose operations also run inside heap-level programs (heapext.go)
 	if xp, ok := xStreams[prop]; ok && !asyncStuck {
